@@ -66,7 +66,7 @@ class AWQBitsTensor(QBitsTensor):
             scale = scale.reshape(out_features, in_features // group_size).t().contiguous()
             zeropoint = zeropoint.reshape(out_features, in_features // group_size).t()
             # Zero-point are actually scaled to float16 and negated
-            zeropoint = (-zeropoint * scale).contiguous()
+            zeropoint = (-zeropoint.to(scale.dtype) * scale).contiguous()
         super().__init__(qtype, axis, group_size, size, stride, data, scale, zeropoint)
 
     def dequantize(self):
